@@ -1,5 +1,6 @@
 """C32 — synced block headers carry signatures of more than C consensus peers (spec/SigHeader.tla, AddHeader)."""
 import _sigcheck as sc
+import _sigentry as se
 
 KNOWN = "AddHeaders:unsound-accept:fewer-signatures-verified-than-C+1"
 
@@ -44,6 +45,14 @@ def run(ctx):
     if ctx.replay_in:
         import json, sys
         rec = json.load(open(ctx.replay_in))["replay"]
+        if rec.get("entry"):
+            # an entry-point history (spec/SigEntry.tla): re-run it, read the stored headers back
+            rr = se.replay(ctx, binary, rec) if binary else None
+            if rr is None:
+                sys.exit(2)
+            print("REPLAY property=C32 %s: %s ; blocks in the store (valid = distinct consensus peers with a valid signature on the STORED header, required %d): %s"
+                  % ("VIOLATION reproduced" if rr[0] else "not reproduced", rr[1], rec["C"] + 1, rr[2]))
+            sys.exit(1 if rr[0] else 0)
         obs, _ = run_bin(ctx, binary, rec["N"], rec["C"], [{"bk": rec["bk"], "sigs": rec["sigs"]}], "replay") if binary else (None, None)
         if obs is None:
             sys.exit(2)
@@ -53,12 +62,27 @@ def run(ctx):
         sys.exit(1 if bad else 0)
     nexec = nacc = nunsound = cand = 0
     per = {}
+    entry_confs = {4} if not ctx.thorough else {4, 7}
+    entry_threads = []
+    entry_res = {}
     if binary:
         for (N, C, maxbk, maxsigs) in confs:
             th = probe(ctx, binary, N, C)
             if th is None:
                 continue
             sv, md = th
+            if N in entry_confs:
+                # entry points and their order (spec/SigEntry.tla), side by side with the single-header rows
+                import threading
+
+                def entry_job(N=N, C=C, sv=sv, md=md):
+                    try:
+                        entry_res[N] = se.entry_phase(ctx, binary, N, C, sv, md)
+                    except BaseException as e:  # noqa
+                        ctx.infra("entry phase N=%d died: %r" % (N, e))
+                t_ = threading.Thread(target=entry_job)
+                t_.start()
+                entry_threads.append(t_)
             ctx.log("N=%d C=%d: the tree verifies %d signature(s) and wants %d distinct listed members (property: %d valid member signatures)"
                     % (N, C, sv, md, C + 1))
             name = "SigHeader_L%d.cfg" % N
@@ -127,6 +151,16 @@ def run(ctx):
     if ep:
         nexec += ep[0]
         per["epoch histories"] = {"histories": ep[0], "steps": ep[1], "unsound_accepts": ep[2]}
+    for t_ in entry_threads:
+        t_.join()
+    for N_ in sorted(entry_confs):
+        er = entry_res.get(N_)
+        if er:
+            nexec += er["paths"]
+            nunsound += er["unsound_stores"]
+            per["entry points N=%d" % N_] = er
+        elif binary and not ctx.infra_errors:
+            ctx.infra("entry phase N=%d produced no result" % N_)
     ctx.finish("model_checking", {
         "states": ctx.stats["states"], "transitions": ctx.stats["transitions"],
         "traces_validated_against_impl": nexec, "accepted_by_real_code": nacc, "unsound_accepts_on_real_code": nunsound,
@@ -135,4 +169,7 @@ def run(ctx):
         "headers enumerated up to renaming of members (members listed in order of first occurrence); signatures by listed members, one unlisted member, an outsider, garbage, stale",
         "thresholds (signatures verified, distinct listed members) are probed from the tree and fed to TLC as constants",
         "stateful part (SigEpoch): all histories of 3 AddHeader/AddBlock steps over config-change headers, LastConfigBlockNum in {0,1}, members/outsiders as signers; in-memory header state reset between histories",
-        "a valid signature counts for the property whether or not its signer is listed as bookkeeper (the weaker reading)"])
+        "a valid signature counts for the property whether or not its signer is listed as bookkeeper (the weaker reading)",
+        "entry points (SigEntry): AddHeader / AddHeaders / AddBlock / ExecuteBlock+SubmitBlock in every order over the two heights above the current block, two unsigned contents per height (two forks), "
+        "the signature section of every object chosen independently of its hash; empty blocks; the governing configuration is the genesis one; every path starts at the real ledger's current block "
+        "(header index above it and header cache reset between paths); the stored header of every block is read back from the block store and its signatures are verified with the real signature.Verify"])
